@@ -126,7 +126,10 @@ func init() {
 		"internal/stringslite.IndexByte": func(fr *frame, a []value) value {
 			return strings.IndexByte(a[0].(string), a[1].(byte))
 		},
-		"strconv.Itoa": func(fr *frame, a []value) value { return strconv.Itoa(int(fr.i.concretize(a[0], "strconv.Itoa"))) },
+		"strconv.AppendFloat": extStrconvAppendFloat,
+		"strconv.FormatFloat": extStrconvFormatFloat,
+		"strconv.ParseFloat":  extStrconvParseFloat,
+		"strconv.Itoa":        func(fr *frame, a []value) value { return strconv.Itoa(int(fr.i.concretize(a[0], "strconv.Itoa"))) },
 		"unicode/utf8.DecodeRuneInString": func(fr *frame, a []value) value {
 			r, n := utf8.DecodeRuneInString(a[0].(string))
 			return tuple{r, n}
@@ -203,7 +206,10 @@ func extMathAbs(fr *frame, a []value) value {
 func (i *interpreter) float64bits(s sym) value {
 	st := i.st
 	if s.t.S.K == KReal {
-		panic(unsupported{"Float64bits of an EXACT-domain value"})
+		// the bit pattern of an exact-domain value is opaque (an uninterpreted
+		// function of the value): equal values have equal bits, nothing else
+		i.noteUF("r2bits")
+		return sym{st.UF("r2bits", SBV(64), s.t), types.Uint64}
 	}
 	if s.t.Op == "fp_of_bv" {
 		return i.mkSym(s.t.Args[0], types.Uint64)
@@ -222,6 +228,9 @@ func extMathFloat64bits(fr *frame, a []value) value {
 }
 
 func extMathFloat64frombits(fr *frame, a []value) value {
+	if s, ok := a[0].(sym); ok && s.t.Op == "ufvar" && s.t.Name == "r2bits" {
+		return sym{s.t.Args[0], types.Float64}
+	}
 	if s, ok := a[0].(sym); ok {
 		return fr.i.mkSym(fr.i.st.FPOfBV(s.t), types.Float64)
 	}
@@ -596,4 +605,61 @@ func extMathPow10(fr *frame, a []value) value {
 		t = st.Ite(st.Eq(s.t, st.BVConst(uint64(int64(e)), w)), st.FPConst(math.Pow10(e)), t)
 	}
 	return i.mkSym(t, types.Float64)
+}
+
+// runBody is returned by an external that wants the real SSA body to run.
+type runBody struct{}
+
+const floatTokenBase = 9000000
+
+// Formatting / parsing of symbolic floats (DESIGN section 6): the i-th
+// formatted symbolic float becomes the decimal token 9000000+i; ParseFloat of
+// such a token returns the recorded term. Everything about numerals (sign,
+// shortest round trip, exponent forms) is therefore outside what is decided.
+func (i *interpreter) floatToken(v sym) string {
+	ps := i.ps
+	for k, t := range ps.floatTokens {
+		if t == v.t {
+			return strconv.Itoa(floatTokenBase + k)
+		}
+	}
+	ps.floatTokens = append(ps.floatTokens, v.t)
+	i.noteStub("strconv float formatting (token)")
+	return strconv.Itoa(floatTokenBase + len(ps.floatTokens) - 1)
+}
+
+func extStrconvAppendFloat(fr *frame, a []value) value {
+	v, ok := a[1].(sym)
+	if !ok || fr.i.ps == nil {
+		return runBody{}
+	}
+	tok := fr.i.floatToken(v)
+	dst := a[0].([]value)
+	for k := 0; k < len(tok); k++ {
+		dst = append(dst, tok[k])
+	}
+	return dst
+}
+
+func extStrconvFormatFloat(fr *frame, a []value) value {
+	v, ok := a[0].(sym)
+	if !ok || fr.i.ps == nil {
+		return runBody{}
+	}
+	return fr.i.floatToken(v)
+}
+
+func extStrconvParseFloat(fr *frame, a []value) value {
+	i := fr.i
+	s, ok := a[0].(string)
+	if !ok {
+		panic(unsupported{"strconv.ParseFloat of a symbolic string"})
+	}
+	if i.ps != nil && len(s) == 7 {
+		if n, err := strconv.Atoi(s); err == nil && n >= floatTokenBase && n-floatTokenBase < len(i.ps.floatTokens) {
+			i.noteStub("strconv float parsing (token)")
+			return tuple{sym{i.ps.floatTokens[n-floatTokenBase], types.Float64}, iface{}}
+		}
+	}
+	return runBody{}
 }
